@@ -352,11 +352,11 @@ pub fn shard_run(prop: &str, tier: &str, seed: u64, replay: Option<&serde_json::
         for workers in [1usize, 2] {
             let web = taskchampion_sync_server::WebServer::new(crate::subject::Config::default().to_server(), None, taskchampion_sync_server_core::InMemoryStorage::new());
             let Ok(srv) = crate::net::SockServer::start(web, workers) else { continue };
-            for (i, (na, nb)) in [(3000usize, 200usize), (70_000, 70_000), (5, 300_000), (200, 3000)].iter().enumerate() {
+            for (i, (na, nb, abab)) in [(3000usize, 200usize, false), (70_000, 70_000, true), (5, 300_000, false), (200, 3000, true), (3000, 200, true), (300_000, 8, true)].iter().enumerate() {
                 let c = uuid::Uuid::new_v4();
-                let o = crate::checks_c06::overlapping_version_uploads(&srv.addr, c, c, *na, *nb, seed ^ (i as u64) << 9);
+                let o = crate::checks_c06::overlapping_version_uploads_pattern(&srv.addr, c, c, *na, *nb, seed ^ (i as u64) << 9, *abab);
                 cov.evaluations += 2;
-                cov.hit(format!("overlapping-uploads-of-one-client|workers={workers}"));
+                cov.hit(format!("overlapping-uploads-of-one-client|workers={workers}|{}", if *abab { "A1,B1,A2,B2" } else { "A1,B,A2" }));
                 let accepted: Vec<&Vec<u8>> = [(&o.a_up, &o.da), (&o.b_up, &o.db)].iter().filter(|(r, _)| matches!(r, Resp::AddOk { .. })).map(|(_, d)| *d).collect();
                 let bad = match (accepted.len(), &o.a_down) {
                     (1, Resp::Found { data, .. }) if data == accepted[0] => None,
